@@ -549,3 +549,62 @@ pub fn generate(r: &mut Rng, tier: &str, emit: &mut dyn FnMut(String)) {
     gen_names(r, emit);
     gen_checks(r, emit);
 }
+
+/// Daemon-level histories (`sim C08`): two or three daemons on one loss-free link register the
+/// same instance and host name with different data at every relative offset of a dense grid
+/// (simultaneous .. seconds apart) under all probe jitters; every daemon has a monitor channel.
+pub fn gen_duel(r: &mut Rng) -> String {
+    use crate::scen::hx;
+    let nd = if r.chance(1, 4) { 3 } else { 2 };
+    let mut cmds: Vec<String> = vec![];
+    for d in 0..nd {
+        cmds.push(format!("daemon 1 {} 2 192.168.1.{} 24", hx("eth0"), 10 + 10 * d));
+    }
+    for a in 0..nd {
+        for b in (a + 1)..nd {
+            cmds.push(format!("link {} 2 {} 2", a, b));
+        }
+    }
+    for d in 0..nd {
+        cmds.push(format!("ipint {} 100000", d));
+        cmds.push(format!("monitor {} {}", d, 900 + d));
+    }
+    let t0 = 1_000_000u64;
+    cmds.push(format!("run {}", t0));
+    let inst = *r.pick(&["dup", "dup", "Web Server", "dup (2)", "x (9)", "MiXed"]);
+    let host = *r.pick(&["duphost.local.", "duphost.local.", "h-2.local.", "Host-A.local."]);
+    let ty = *r.pick(&["_http._tcp.local.", "_x._udp.local."]);
+    let mut now = t0;
+    // offsets around the probe steps (0, 250, 500, 750) and the announcements (+1 s), and later
+    let grid: &[u64] = &[0, 1, 50, 125, 249, 250, 251, 375, 499, 500, 501, 625, 749, 750, 751, 900, 1000, 1250, 1749, 1750, 1751, 2500, 4000];
+    for d in 0..nd {
+        if d > 0 {
+            now += *r.pick(grid);
+            cmds.push(format!("run {}", now));
+        }
+        cmds.push(format!("jit {} {}", d, r.below(250)));
+        // same names, different address and port; host case may differ
+        let h = if r.chance(1, 5) { host.to_uppercase().replace(".LOCAL.", ".local.") } else { host.to_string() };
+        cmds.push(format!(
+            "register {} {} {} {} {} 1 192.168.1.{} 1 {} some {} 1 0",
+            d,
+            hx(ty),
+            hx(inst),
+            hx(&h),
+            8000 + d,
+            10 + 10 * d,
+            hx("who"),
+            hex(format!("d{}", d).as_bytes())
+        ));
+    }
+    now += *r.pick(&[12_000u64, 20_000]);
+    cmds.push(format!("run {}", now));
+    format!("sim C08 {}", cmds.join(" ; "))
+}
+
+pub fn generate_daemon(r: &mut Rng, tier: &str, emit: &mut dyn FnMut(String)) {
+    let n = if tier == "thorough" { 3000 } else { 300 };
+    for _ in 0..n {
+        emit(gen_duel(r));
+    }
+}
